@@ -66,6 +66,18 @@ type C15Pair struct {
 	TB       int64    `json:"ts_b"`
 	OtherDB  string   `json:"other_db"`
 	Junk     string   `json:"junk"`
+	// zone offsets (seconds east of UTC) the time.Time values carry when the
+	// names are built: the instant, not the wall clock of a zone, is encoded
+	ZoneA int `json:"zone_a,omitempty"`
+	ZoneB int `json:"zone_b,omitempty"`
+}
+
+func c15Time(nano int64, zone int) time.Time {
+	ts := time.Unix(0, nano)
+	if zone != 0 {
+		ts = ts.In(time.FixedZone("Z", zone))
+	}
+	return ts
 }
 
 var reUnsafeDoc = regexp.MustCompile("[^a-zA-Z0-9-]")
@@ -105,6 +117,14 @@ func genC15(t *rapid.T) C15Pair {
 		c.TA = clampNano(c.TA - c.TA%p)
 		c.TB = clampNano(c.TA - 1)
 	}
+	if rapid.Bool().Draw(t, "zoned") {
+		zones := []int{0, 3600, 7200, -18000, 19800, 45900, -43200, 50400, 1, -1}
+		c.ZoneA = rapid.SampledFrom(zones).Draw(t, "zone_a")
+		c.ZoneB = c.ZoneA
+		if rapid.Bool().Draw(t, "zone_change") { // e.g. DST change between two snapshots
+			c.ZoneB = rapid.SampledFrom(zones).Draw(t, "zone_b")
+		}
+	}
 	// another database whose name shares a prefix with DB
 	switch rapid.IntRange(0, 3).Draw(t, "odb_kind") {
 	case 0:
@@ -139,21 +159,22 @@ func checkC15(c C15Pair, o *vcore.Obs) error {
 	if strings.ContainsAny(inst, "_.") {
 		return fmt.Errorf("harness sanitiser wrong")
 	}
-	mk := func(db string, nano int64) (snapshot.NameInfo, string) {
+	mk := func(db string, nano int64, zone int) (snapshot.NameInfo, string) {
 		ni := snapshot.NameInfo{
 			Extension:    snapshot.DefaultExtension,
 			SyncerName:   db,
 			InstanceID:   inst,
 			GenerationID: c.Gen,
-			Timestamp:    time.Unix(0, nano),
+			Timestamp:    c15Time(nano, zone),
 		}
 		for _, e := range c.Extra {
 			ni.Extra = append(ni.Extra, snapshot.NameExtraItem(e))
 		}
 		return ni, ni.BuildName()
 	}
-	for _, nano := range []int64{c.TA, c.TB} {
-		ni, name := mk(c.DB, nano)
+	for i, nano := range []int64{c.TA, c.TB} {
+		zone := []int{c.ZoneA, c.ZoneB}[i]
+		ni, name := mk(c.DB, nano, zone)
 		p, err := snapshot.ParseName(name)
 		if err != nil {
 			return fmt.Errorf("ParseName(BuildName(x)) failed for %q: %v", name, err)
@@ -175,13 +196,13 @@ func checkC15(c C15Pair, o *vcore.Obs) error {
 		}
 		// also: Name() helper gives the same name when there are no extras
 		if len(c.Extra) == 0 {
-			if n2 := snapshot.Name(c.DB, inst, c.Gen, time.Unix(0, nano)); n2 != name {
+			if n2 := snapshot.Name(c.DB, inst, c.Gen, c15Time(nano, zone)); n2 != name {
 				return fmt.Errorf("Name() and BuildName() disagree: %q vs %q", n2, name)
 			}
 		}
 	}
-	_, na := mk(c.DB, c.TA)
-	_, nb := mk(c.DB, c.TB)
+	_, na := mk(c.DB, c.TA, c.ZoneA)
+	_, nb := mk(c.DB, c.TB, c.ZoneB)
 	cmpN := strings.Compare(na, nb)
 	cmpT := 0
 	if c.TA < c.TB {
@@ -195,7 +216,7 @@ func checkC15(c C15Pair, o *vcore.Obs) error {
 	// Other databases: their names must never match this database's listing prefix
 	// nor parse as a snapshot of this database.
 	if c.OtherDB != c.DB {
-		_, no := mk(c.OtherDB, c.TA)
+		_, no := mk(c.OtherDB, c.TA, c.ZoneA)
 		if strings.HasPrefix(no, c.DB+"__") {
 			return fmt.Errorf("name %q of database %q matches prefix of database %q", no, c.OtherDB, c.DB)
 		}
@@ -234,6 +255,8 @@ func checkC15(c C15Pair, o *vcore.Obs) error {
 	o.ClassIf(d != 0 && d < 1_000_000_000, "lt-1s-apart")
 	o.ClassIf(c.TA/1e9 == c.TB/1e9 && d != 0, "same-second")
 	o.ClassIf(inst != c.Instance, "instance-sanitised")
+	o.ClassIf(c.ZoneA != 0 || c.ZoneB != 0, "non-utc-zone")
+	o.ClassIf(c.ZoneA != c.ZoneB, "zone-change-between-snapshots")
 	o.ClassIf(len(c.Extra) > 0, "with-extra")
 	o.ClassIf(strings.HasPrefix(c.OtherDB, c.DB), "otherdb-shares-prefix")
 	return nil
@@ -241,7 +264,7 @@ func checkC15(c C15Pair, o *vcore.Obs) error {
 
 func TestC15Names(t *testing.T) {
 	vcore.Run(t, vcore.Config{Property: "C15",
-		Rule: "rapid: (db, raw instance, generation, extras, ts_a, ts_b, other db, junk string); " +
+		Rule: "rapid: (db, raw instance, generation, extras, ts_a, ts_b, zone offsets of the two time values, other db, junk string); " +
 			"non-trivial = the two timestamps differ by less than one second (and are not equal); distinct = SHA-1 of the JSON case"},
 		genC15, checkC15)
 }
